@@ -96,6 +96,10 @@ def run(c):
                 required_actions=["ClientConnect", "AcceptLookup", "AcceptRemove", "Close", "Reopen", "Send"])
     if res.violated:
         raise tlcmod.TlcError("SingleUse fails on the design: %s" % res.trace_text[:2000])
+    if thorough:
+        r2 = c.tlc("MC_Proxy", "Proxy_two_deep.cfg", workers=6, timeout=1500)
+        if r2.violated:
+            raise tlcmod.TlcError("SingleUse fails on the deeper design configuration: %s" % r2.trace_text[:2000])
     g = c.tlc("SingleUseGen", "SingleUseGen.cfg", subdir="gen", workers=2, coverage=False, timeout=300)
     if g.violated:
         raise tlcmod.TlcError("SingleUseGen: record not consumed in the accept-path model")
